@@ -87,7 +87,7 @@ Deliver(d) ==
 \* The retransmission timer is long compared with the transit time: it fires when the network is quiet.
 Tick(e) ==
   /\ Quiescent /\ ep[e].started
-  /\ ep[e].st = "Handshaking" /\ ep[e].last # <<>>
+  /\ ep[e].st = "Handshaking" /\ TickOf(ep[e]).out # <<>>
   /\ Apply(e, TickOf(ep[e]))
   /\ UNCHANGED <<net, held, cnt, shift, nb, ab, ops, cfg, appSent>>
 
@@ -224,6 +224,10 @@ KeyAgree    == KeyAgreement(ep["C"], ep["S"])
 AppReadable == \A e \in E : ep[e].appBad = 0
 \* C11 liveness: finitely many faults => both Connected (the deadline is later than that)
 Converge    == <>[](ep["C"].st = "Connected" /\ ep["S"].st = "Connected")
+\* Against the reference server, which never sends its final flight a second time (its handshake loop ends
+\* when it has finished): convergence unless the schedule loses that one flight.
+RefFinalLost == \E i \in 1..Len(ops) : ops[i].dir = "S>C" /\ ops[i].msg = "FIN" /\ ops[i].kind \in {"drop", "hold"}
+ConvergeRefS == <>[]((ep["C"].st = "Connected" /\ ep["S"].st = "Connected") \/ RefFinalLost)
 
 \* C02
 DhOf(cert) == CASE cert = "certS" -> "dhS" [] cert = "certC" -> "dhC" [] cert = "certM" -> "dhM" [] OTHER -> "dhX"
